@@ -1,8 +1,8 @@
 package rules
 
 import (
-	"sort"
 	"go/token"
+	"sort"
 	"strings"
 
 	"golang.org/x/tools/go/ssa"
@@ -689,26 +689,24 @@ func returnsOnlyNil(fn *ssa.Function) bool {
 
 func c04PrecondFirst(e *Env, s *Sched) {
 	r := e.R
-	r.Rule("C04.precond-first", "DCS", "Agent.Run: everything after checkPreconditions()==nil", 4)
-	run := e.Fn("internal/agent", "(*Agent).Run")
-	if run == nil {
+	r.Rule("C04.precond-first", "DCS", "Agent.Run: acts only after the DAG's preconditions were found met", 4)
+	a := e.agentRoles()
+	if a.Run == nil {
 		return
 	}
-	isPre := func(v ssa.Value) bool { return calleeIs(v, ").checkPreconditions") }
-	agentOrdered(e, run, "checkPreconditions()==nil", func(lits []ir.NLit) bool {
-		for _, l := range lits {
-			if l.Kind == "cmp" && l.Op == token.EQL && ir.IsNilConst(l.Y) && isPre(l.X) {
-				return true
-			}
-		}
-		return false
-	}, []string{").dryRun", ").Schedule", ").checkIsAlreadyRunning", ").setupDatabase", ").setupSocketServer", "HistoryStore.Write", "HistoryStore.Open"},
-		"runs / records / probes although the DAG's own preconditions were not (yet) found to be met")
+	agentOrdered(e, "the preconditions were met", a.PassedGuard(apiEval),
+		[]string{apiSchedule, apiHistory, apiServe},
+		"runs / records / binds although the DAG's own preconditions were not (yet) found to be met", nil)
 	// the preconditions check itself evaluates the DAG's preconditions and returns the error
-	cp := e.Fn("internal/agent", "(*Agent).checkPreconditions")
-	if cp != nil {
+	holders := a.Holders(apiEval)
+	if len(holders) != 1 {
+		r.Unknown("the agent's precondition check", e.Pos(a.Run.Pos()), sprintf("%d functions of the agent package call dag.EvalConditions", len(holders)))
+		return
+	}
+	cp := holders[0]
+	{
 		ok := false
-		for _, ci := range ir.CallsIn(cp, func(c *ssa.CallCommon) bool { return ir.IsCallTo(c, "internal/dag.EvalConditions") }) {
+		for _, ci := range ir.CallsIn(cp, func(c *ssa.CallCommon) bool { return ir.IsCallTo(c, apiEval) }) {
 			if e.IsFieldRead(ci.Common().Args[0], nil, "dag.Preconditions") {
 				ok = true
 			}
@@ -719,7 +717,7 @@ func c04PrecondFirst(e *Env, s *Sched) {
 		for _, b := range cp.Blocks {
 			for _, in := range b.Instrs {
 				rt, isR := in.(*ssa.Return)
-				if !isR || !e.Facts(cp).Reachable(b) {
+				if !isR || !e.Facts(cp).Reachable(b) || len(rt.Results) == 0 {
 					continue
 				}
 				lits := e.DCS(rt)
@@ -729,7 +727,7 @@ func c04PrecondFirst(e *Env, s *Sched) {
 						failed = true
 					}
 				}
-				if failed && ir.IsNilConst(rt.Results[0]) {
+				if failed && ir.IsNilConst(rt.Results[len(rt.Results)-1]) {
 					okRet = false
 				}
 			}
@@ -738,21 +736,20 @@ func c04PrecondFirst(e *Env, s *Sched) {
 	}
 }
 
-// agentOrdered checks that every call in fn (closures included, judged at their
-// creation site) whose callee name ends with one of `targets` is dominated by
-// the guard.
-func agentOrdered(e *Env, fn *ssa.Function, guardName string, guard func([]ir.NLit) bool, targets []string, why string) {
+// agentOrdered checks that every call of the agent's Run (closures included,
+// judged at their creation site; go and defer statements included) that performs
+// one of the outside calls `apis` - itself or through helpers of the package,
+// whatever they are called - is dominated by the guard. `allow` names the
+// documented exceptions.
+func agentOrdered(e *Env, guardName string, guard func([]ir.NLit) bool, apis []string, why string, allow func([]ir.NLit) bool) {
 	r := e.R
+	a := e.agentRoles()
+	fn := a.Run
+	if fn == nil {
+		return
+	}
 	for _, f := range ir.WithClosures(fn) {
-		for _, ci := range ir.CallsIn(f, func(c *ssa.CallCommon) bool {
-			n := ir.CalleeName(c)
-			for _, t := range targets {
-				if strings.HasSuffix(n, t) {
-					return true
-				}
-			}
-			return false
-		}) {
+		for _, ci := range ir.CallsIn(f, func(c *ssa.CallCommon) bool { return len(a.Does(c, apis)) > 0 }) {
 			site := ssa.Instruction(ci)
 			host := f
 			for host != fn {
@@ -770,8 +767,14 @@ func agentOrdered(e *Env, fn *ssa.Function, guardName string, guard func([]ir.NL
 				site, host = mcSite, host.Parent()
 			}
 			lits := e.DCS(site)
-			r.Check(guard(lits), ShortFn(fn)+": "+shortCallee(ci.Common())+" only after "+guardName, e.InstrPos(ci),
-				"this call "+why, e.FactsStr("dominating conditions: ", lits))
+			via := ""
+			if g := ci.Common().StaticCallee(); a.inPkg(g) {
+				via = " (through " + shortName(g) + ")"
+			}
+			for _, api := range a.Does(ci.Common(), apis) {
+				r.Check(guard(lits) || (allow != nil && allow(lits)), "Agent.Run: "+apiShort(api)+" only after "+guardName, e.InstrPos(ci),
+					"this call"+via+" "+why, e.FactsStr("dominating conditions: ", lits))
+			}
 		}
 	}
 }
